@@ -80,6 +80,13 @@ def members : List Slot → List (Key × Doc)
   | none :: r => members r
   | some (k, v) :: r => if v.isUndef then members r else (k, v) :: members r
 
+/-- No live item has an undefined value (a member created by a subscript and never assigned is not a
+"removed member": `GroupBy` answers `false` for it, which the pinned suite requires). -/
+def allDefined : List Slot → Bool
+  | [] => true
+  | none :: r => allDefined r
+  | some (_, v) :: r => !v.isUndef && allDefined r
+
 def assocFind (k : Key) : List (Key × α) → Option α
   | [] => none
   | (k', v) :: r => if k' = k then some v else assocFind k r
